@@ -170,6 +170,19 @@ def corpus_histories():
     out.append({"umask": 0o022, "steps": [
         {"ftype": "key", "via": "raw", "fm": sl.base_fm(), "data_hex": b"BBB".hex(), "what": "corpus",
          "pre": {"content_hex": (b"A" * 20).hex(), "mode": 0o600, "uid": 0, "gid": 0}}]})
+    # an I/O fault during the write itself: the file may not grow beyond 1 KiB while the call runs
+    # (RLIMIT_FSIZE, SIGXFSZ ignored): open and truncate succeed, write(2) is short or refused.  A call
+    # that then reports success must still have left exactly the bytes it was given (judge only: the
+    # model has no I/O faults)
+    big = (b"-----BEGIN CERTIFICATE-----\n" + b"QUJD" * 900 + b"\n-----END CERTIFICATE-----\n").hex()
+    for kind in ("cert", "account"):
+        for pre in ({"absent": True}, {"content_hex": (b"old " * 500).hex(), "mode": 0o600, "uid": 0, "gid": 0}):
+            out.append({"umask": 0o022, "steps": [
+                {"ftype": kind, "fm": sl.base_fm(), "data_hex": big, "pre": pre, "what": "io-fault",
+                 "fsize_limit": 1024}]})
+    out.append({"umask": 0o022, "steps": [
+        {"ftype": "key", "via": "raw", "fm": sl.base_fm(), "data_hex": big, "pre": {"absent": True}, "what": "io-fault",
+         "fsize_limit": 1024}]})
     for c in vlib.corpus("C02"):
         if "steps" in c:
             out.append(c)
@@ -247,7 +260,9 @@ def evaluate(ctx, items, w, helper, tag=""):
                 ctx.count(tag + "over:" + rel)
                 if b["len"] > dl and rc != "preHook":
                     shrink = True
-            d = sl.compare_step(o, ms, aspects=("content",))
+            d = sl.compare_step(o, ms, aspects=("content",)) if not s.get("fsize_limit") else []
+            if s.get("fsize_limit"):
+                ctx.count(tag + "io-fault:%s" % ("reported" if rc != "ok" else "not-reported"))
             if d:
                 rec["corr"].append("step %d: %s" % (i, "; ".join(d)))
             obs.append({"path": o["path"], "data_hex": o["data_hex"], "ok": rc == "ok"})
@@ -291,6 +306,8 @@ def evaluate(ctx, items, w, helper, tag=""):
         jobs.append({"op": "c02_holds", "obs": obs, "files": [{"path": p, "content_hex": c} for p, c in final.items()]})
         jmeta.append((rec, len(steps) - 1, out["steps"][-1], "at the end of the history"))
         for p, c in final.items():
+            if any(s.get("fsize_limit") for s in hist["steps"]):
+                break
             mf = [f for f in m["final"] if f["path"] == p]
             if not mf or mf[0]["file"]["content_hex"] != c:
                 rec["corr"].append("final content of %s" % p)
